@@ -133,7 +133,7 @@ class Ctx:
         self.vars = {}
         self.notes = []
         self.rule_counts = {}
-        self.timeout_ms = 20000 if tier == 'quick' else 120000
+        self.timeout_ms = int((20000 if tier == 'quick' else 120000) * float(os.environ.get('GM2V_TIMEOUT_SCALE', '1')))
         self.assumed = []      # textual list of assumptions used (axioms, callee contracts)
         self._vac_seen = set()
         self.pin_defaults = {}
@@ -428,7 +428,7 @@ def get_world(repo=None):
         _WORLD[repo] = World(repo)
     return _WORLD[repo]
 
-def run_obligations(obs, tier, seed, repo=None, jobs=None, hard_timeout=None):
+def run_obligations(obs, tier, seed, repo=None, jobs=None, hard_timeout=None, _retry=False):
     """run each obligation in its own process (fork); returns list of result dicts"""
     jobs = jobs or min(16, os.cpu_count() or 4)
     hard_timeout = hard_timeout or (240 if tier == 'quick' else 1800)
@@ -474,6 +474,23 @@ def run_obligations(obs, tier, seed, repo=None, jobs=None, hard_timeout=None):
                 continue
             still.append((ob, p, q, t0))
         running = still
+    # a timeout under load is not a verdict: obligation groups left undecided by a timeout are re-run once, few at a time, with a
+    # three times longer budget (a machine running several checks at once must not turn "proved" into "undecided")
+    if not _retry:
+        slow = [d['oid'] for d in out if any(r['status'] == UNDECIDED and 'timeout' in (r.get('detail') or '') for r in d['results'])]
+        if slow and len(slow) <= 24:
+            old = os.environ.get('GM2V_TIMEOUT_SCALE')
+            os.environ['GM2V_TIMEOUT_SCALE'] = '3'
+            try:
+                again = run_obligations([ob for ob in obs if ob.oid in slow], tier, seed, repo=repo, jobs=4,
+                                        hard_timeout=3 * hard_timeout, _retry=True)
+            finally:
+                if old is None:
+                    del os.environ['GM2V_TIMEOUT_SCALE']
+                else:
+                    os.environ['GM2V_TIMEOUT_SCALE'] = old
+            redo = {d['oid']: d for d in again}
+            out = [redo.get(d['oid'], d) for d in out]
     order = {ob.oid: i for i, ob in enumerate(obs)}
     out.sort(key=lambda d: order.get(d['oid'], 0))
     return out
@@ -537,7 +554,7 @@ def cbmc_contract(ctx, sub, fn, file, clauses, callee_contracts=None, externs=()
         rep = sorted(set(cp.extern_mangled.values()))
         res = cbmc.verify(wd, sub.replace('/', '_') or fn, src, 'harness', enforce=m, replace=list(rep) + list(replace),
                           checks=checks or ('--bounds-check', '--pointer-check', '--div-by-zero-check'),
-                          timeout=timeout or (120 if ctx.tier == 'quick' else 900), extra=extra_flags)
+                          timeout=int((timeout or (120 if ctx.tier == 'quick' else 900)) * float(os.environ.get('GM2V_TIMEOUT_SCALE', '1'))), extra=extra_flags)
     finally:
         native.cleanup(wd)
     secs = time.time() - t0
